@@ -260,14 +260,14 @@ class Env:
                 elif n == "x" and ty == "Mh":
                     pass
                 elif n in ("x", "y") and typed:
-                    if _same(v, {"ser": {"ser": VAL[n]}}):
+                    if _same(v, {"ser": {"ser": VAL[n]}}) or _same(v, {"ser": {"ser": None}}):
                         why = "serialized_twice"
-                    elif not _same(v, {"ser": VAL[n]}):
+                    elif not _same(v, {"ser": VAL[n]}) and not (n == "x" and _same(v, {"ser": None})):
                         why = "serialized_value"
                 elif n in ("hv", "hz", "result"):
                     pass
                 elif n == "n":
-                    if v != 3:
+                    if v != 3 and v is not None:
                         why = "field_value"
                 elif n in VAL:
                     if not _same(v, VAL[n]):
@@ -347,6 +347,11 @@ class Env:
         self.recording = False
         if getattr(self, "snapshot", None) is None:
             self.snapshot = {d: (f.getvalue() if isinstance(f, io.BytesIO) else f.getvalue().encode("utf-8")) for d, f in self.files.items()}
+
+    def xval(self):
+        """The value logged for a declared field: usually 7, every fourth time None (a present field whose value is None)."""
+        self.xcount = getattr(self, "xcount", 0) + 1
+        return None if (self.xcount + self.wit) % 4 == 0 else VAL["x"]
 
     def collide(self):
         """Occasionally the application uses field names Eliot reserves; Eliot's own values must win."""
@@ -536,7 +541,7 @@ class Runner:
         try:
             if name == "StartAction":
                 if op["ty"] == "T":
-                    a = env.T(x=VAL["x"])
+                    a = env.T(x=env.xval())
                 elif op["ty"] == "E":
                     a = start_action(sa=VAL["sa"])                      # the default action type: ""
                 else:
@@ -544,7 +549,7 @@ class Runner:
                 env.acts.append(a)
             elif name == "StartTask":
                 if op["ty"] == "T":
-                    a = env.T.as_task(x=VAL["x"])
+                    a = env.T.as_task(x=env.xval())
                 elif op["ty"] == "E":
                     a = start_task(sa=VAL["sa"])
                 else:
@@ -560,11 +565,16 @@ class Runner:
                 if op["ty"] == "M":
                     # the two spellings of a typed message
                     if env.style % 2:
-                        env.M.log(x=VAL["x"])
+                        env.M.log(x=env.xval())
                     else:
-                        env.M(x=VAL["x"]).write()
+                        # the Message object stays the caller's: writing it must not change what it holds
+                        mobj = env.M(x=env.xval())
+                        before = mobj.contents()
+                        mobj.write()
+                        if not _same(mobj.contents(), before):
+                            v = "mutated"
                 elif op["ty"] == "N":
-                    env.N.log(n=3)
+                    env.N.log(n=(None if env.xval() is None else 3))
                 elif op["ty"] == "N0":
                     env.N.log()
                 elif op["ty"] == "Mh":
@@ -579,7 +589,11 @@ class Runner:
                     if style == 0:
                         Message.log(message_type=op["ty"], mf=VAL["mf"])
                     elif style == 1:
-                        Message.new(message_type=op["ty"]).bind(mf=VAL["mf"]).write()
+                        mobj = Message.new(message_type=op["ty"]).bind(mf=VAL["mf"])
+                        before = mobj.contents()
+                        mobj.write()
+                        if not _same(mobj.contents(), before):
+                            v = "mutated"
                     elif style == 2 and current_action() is not None:
                         current_action().log(message_type=op["ty"], mf=VAL["mf"])
                     elif style == 3:
